@@ -615,9 +615,10 @@ class SequenceEncoder(AbstractItemEncoder):
             # bare Python value + ASN.1 schema
             for idx, namedType in enumerate(asn1Spec.componentType.namedTypes):
 
-                if namedType.isOptional and namedType.name not in value:
+                if ((namedType.isOptional or namedType.isDefaulted) and
+                        namedType.name not in value):
                     if LOG:
-                        LOG('not encoding OPTIONAL component %r' % (namedType,))
+                        LOG('not encoding absent component %r' % (namedType,))
                     continue
 
                 try:
